@@ -38,6 +38,8 @@ class Compiled:
             r = spec["ctx"].get("reset")
             if r:
                 init["rst"] = 1 if r.get("active_low") else 0
+                if r.get("derive"):
+                    init["rx"] = 1 if r["derive"].get("active_low") else 0
         for o in spec["inputs"]:
             init[o["name"]] = (first_row or {}).get(o["name"], 0)
         return Sim(self.design, "top", inputs=init)
@@ -53,10 +55,12 @@ def reject_class(e: Rejected):
     return e.exc_type
 
 
-def apply_step(sim, spec, row, reset=None):
+def apply_step(sim, spec, row, reset=None, rx=None):
     kw = dict(row)
     if reset is not None:
         kw["rst"] = reset
+    if rx is not None:
+        kw["rx"] = rx
     if spec["ctx"]["type"] in ("seq", "coro"):
         sim.clock("clk", **kw)
     else:
